@@ -20,7 +20,7 @@ pub fn plan(tier: &str, seed: u64) -> Vec<Batch> {
     };
     let mut v = Vec::new();
     let nops = attack::race_mutating_ops().len() as u64;
-    let nm = attack::race_mutations().len() as u64;
+    let nm = (attack::race_mutations().len() + attack::race_compound().len()) as u64;
     for uni in [UniCfg::e(), UniCfg::k()] {
         for i in 0..nops {
             v.push(Batch { check: "C03".into(), phase: "enum".into(), uni: uni.clone(), seed, lo: i * nm, hi: (i + 1) * nm, fresh: false, tier: tier.into(), extra: Value::Null });
@@ -242,7 +242,8 @@ pub fn run(u: &mut Universe, b: &Batch, st: &mut Stats) {
         return;
     }
     let muts = attack::race_mutations();
-    let nm = muts.len() as u64;
+    let compound = attack::race_compound();
+    let nm = (muts.len() + compound.len()) as u64;
     let sent0 = sentinels();
     for idx in b.lo..b.hi {
         coord::progress(idx);
@@ -292,7 +293,8 @@ pub fn run(u: &mut Universe, b: &Batch, st: &mut Stats) {
                 }
                 let wins = lib_windows(&out0, 0);
                 for &wd in &wins {
-                    let case = enum_case(&b.uni, oi, vec![Dec { step: wd, attack: vec![muts[mi].0.clone()], ..Default::default() }]);
+                    let atk_ops = if mi < muts.len() { vec![muts[mi].0.clone()] } else { compound[mi - muts.len()].clone() };
+                    let case = enum_case(&b.uni, oi, vec![Dec { step: wd, attack: atk_ops, ..Default::default() }]);
                     let mut atk = Attacker::new(&w);
                     let mut out = run_case(u, &case, &mut atk, true);
                     if let Some(e) = &out.harness_error {
